@@ -340,6 +340,8 @@ def cases(draw, signed=None, kinds=None):
     kind = draw(st.sampled_from(list(kinds or LEGACY + SEGWIT)))
     n = draw(st.integers(1, 3)) if kind in ("multisig", "p2sh", "p2wsh", "p2sh-p2wsh") else 1
     m = draw(st.integers(1, n))
+    if kind == "p2sh" and draw(st.integers(0, 2)) == 0:
+        n, m = 3, 2  # scriptSig of 252..254 bytes with compressed keys: the CompactSize boundary inside a signed transaction
     keys = [draw(st.integers(1, 2**64)) for _ in range(n)]
     sender = {"kind": kind, "keys": keys, "m": m, "comp": draw(st.booleans())}
     rk = draw(st.sampled_from(["pubkey", "p2pkh", "p2sh", "p2wpkh", "p2wsh", "v1", "raw"]))
